@@ -121,6 +121,11 @@ def generate(rng, tier):
         elif k < 0.88: ev = ["F"]; fam = "writefault"; exp = "SKIP" if (not isq and nm.upper() in ("R", "RB", "BL")) else "FAIL"
         else: ev = ["E", ("L", " " + reply + "  ")]; fam = "padded-reply"
         add([call, ("status",)], [ev, S.nominal(("status",), rng)], "grammar/%s/%s" % ("query" if isq else "command", fam), [exp, "SKIP"])
+    # a port whose close() would fail (unplugged device: pyserial's exception or a plain OSError): a request that meets an I/O fault must
+    # still come back with its failure value, whatever it does about the dead port
+    for c in cases:
+        if any(e == "F" for e in c["events"]) and rng.random() < 0.5:
+            c["close_raises"] = rng.choice(["os", "os", True]); c["family"] += "/close-would-fail"
     # 3. attribution: undisturbed sequences
     for _ in range(60 if tier == "quick" else 4000):
         calls = [S.random_call(rng) for _ in range(rng.randint(2, 5))]
@@ -129,7 +134,7 @@ def generate(rng, tier):
     return cases
 
 def run_impl(c):
-    return {"obs": S.jsonable_obs(S.run_history(c["calls"], c["events"]))}
+    return {"obs": S.jsonable_obs(S.run_history(c["calls"], c["events"], c.get("close_raises", False)))}
 
 def coq_case(c, r):
     if "raise" in r:
@@ -143,7 +148,7 @@ def nontrivial(c, r):
     return len(obs) >= 2 and obs[1]["consumed"] >= 2
 
 def explain(c, r):
-    return {"calls": [list(map(str, x)) for x in c["calls"]], "script": [e if isinstance(e, str) else e[1] for e in c["events"]][:80],
+    return {"port_close_would_raise": str(c.get("close_raises", False)), "calls": [list(map(str, x)) for x in c["calls"]], "script": [e if isinstance(e, str) else e[1] for e in c["events"]][:80],
             "expect": [str(e) for e in (c.get("expect") or [])],
             "observed": [{k: o[k] for k in ("raised", "ret", "writes", "err", "port", "consumed")} for o in r.get("obs", [])]}
 
